@@ -116,7 +116,11 @@ fn split_decoder(len: usize, cuts: &[usize], method: &str) -> Vec<String> {
         // data of the current chunk, cut into pieces no longer than the next cut distance
         let mut k = 0;
         while pending > 0 {
-            let piece = pending.min(cuts[k % cuts.len()].max(1));
+            // the first 40 pieces follow `cuts` literally; after that no piece is shorter than 1/150 of the
+            // record (a megabyte in 64-byte pieces would be 40000 calls: hours for the list model)
+            let want = cuts[k % cuts.len()].max(1);
+            let want = if parts.len() > 40 && cuts.len() > 1 { want.max(len / 150) } else { want };
+            let piece = pending.min(want);
             parts.push((format!("61*{}+-", piece), piece));
             pending -= piece;
             k += 1;
